@@ -231,6 +231,25 @@ func runC09(c *core.Ctx) {
 	res.Assume("Store on a present key replaces the value and counts as a use; replacement fires no removal callback (the statement names only evicted or deleted entries)")
 	res.Assume("capacity 0: an inserted entry is itself the least recently used one and is evicted at once, with its callback")
 	keys := []interface{}{"a", "b", "c"}
+	// ---- the constructor without an argument (documented default capacity) must give a usable cache
+	if c.Shard == 0 {
+		func() {
+			defer func() {
+				if r := recover(); r != nil {
+					res.Violate("C09|constructor-default|panic", fmt.Sprintf("NewLRU() without a capacity argument panicked: %v", r), nil)
+				}
+			}()
+			l := valid.NewLRU()
+			for i := 0; i < 2000; i++ {
+				l.Store(i, i)
+			}
+			v, ok := l.Load(1999)
+			if n := l.Len(); n <= 0 || n > 2000 || !ok || v != 1999 {
+				res.Violate("C09|constructor-default|unusable", fmt.Sprintf("NewLRU(): after 2000 stores Len()=%d, Load(last)=%v,%v", n, v, ok), nil)
+			}
+			res.Eval()
+		}()
+	}
 	// ---- bounded exhaustive
 	L := c.Pick(6, 7)
 	alphabet := []lruOp{}
